@@ -12,6 +12,8 @@ structure St where
   s : State
   names : List Nat
   us : List (Scope × Addr)
+  /-- `reset pf=1`: the tree has the ChangePassphrases public-half fix (harness probe) -/
+  pubFix : Bool := false
 
 def scopeNames : List String := ["np", "wpkh", "tr"]
 def allScopes : List Scope := [0, 1, 2]
@@ -107,7 +109,7 @@ def exec (st : St) (sc : Scope) (op : Op) (names : List Nat) : St × String :=
       (s!"ok acct={a} props={showRow row} ext={joinWith "," (ext.map showAddr)} int={joinWith "," (int.map showAddr)}",
        ext ++ int)
     | .imported a row _ _, _ => (s!"ok acct={a} props={showRow row}", [])
-  let st' : St := { s := s', names := names, us := addU st.us sc (ads ++ lost) }
+  let st' : St := { st with s := s', names := names, us := addU st.us sc (ads ++ lost) }
   (st', txt ++ " " ++ diskDigest st')
 
 /-- passphrase id below `n` -/
@@ -146,7 +148,11 @@ def step' (st : Option St) (line : String) : Option St × String :=
   | [] => (st, "bad-op")
   | op :: rest =>
     if op == "reset" then
-      (some fresh, "ok " ++ diskDigest fresh)
+      match cf? (kv rest "pf") with
+      | none => (none, "bad-op")
+      | some pf =>
+        let f : St := { fresh with pubFix := pf }
+        (some f, "ok " ++ diskDigest f)
     else
     match st with
     | none => (none, "bad-op")
@@ -236,7 +242,12 @@ def step' (st : Option St) (line : String) : Option St × String :=
       | "chboth" =>
         match pass? (kv rest "pubold") nPub, pass? (kv rest "pubnew") nPub, pass? (kv rest "privold") nPriv,
             pass? (kv rest "privnew") nPriv with
-        | some po, some pn, some vo, some vn => wrap (exec st 0 (.chBoth po pn vo vn) st.names)
+        | some po, some pn, some vo, some vn =>
+          if st.pubFix then
+            let r := stepChBothFixed st.s po pn vo vn
+            let st' : St := { st with s := r.1 }
+            (some st', (match r.2 with | .err e => showErr e | _ => "ok") ++ " " ++ diskDigest st')
+          else wrap (exec st 0 (.chBoth po pn vo vn) st.names)
         | _, _, _, _ => (some st, "bad-op")
       | "cmp" =>
         let r := "R[" ++ digest st.s.disk st.s.mem st.names st.us false ++ "]"
